@@ -46,6 +46,21 @@ def mix (salt : Nat) (sc : List (Option Nat)) (ar : List (List Nat)) (vs : List 
   let r := mixScalars salt sc vs
   mixArrays r.1 ar r.2
 
+/-- `mixK(salt, x, y, read)` of the skipping processor: the value list has one entry per wired port
+    (the entry of an input that was not pulled is a placeholder the function does not use) -/
+def mixK (salt : Nat) (_sc : List (Option Nat)) (_ar : List (List Nat)) (vs : List Nat) : Nat :=
+  match vs with
+  | [x, y] =>
+    let h := (salt * 31 + 11 + x) % M
+    if x > 0 then (h * 31 + 11 + y) % M else (h * 31 + 3) % M
+  | _ => 0
+
+/-- which inputs the skipping processor pulls: A always, B only when A's value is > 0 -/
+def readsK (acc : List Nat) : Bool :=
+  match acc with
+  | [x] => decide (x > 0)
+  | _ => true
+
 /-! ### parsing -/
 
 abbrev P := StateT (List String) Option
@@ -90,6 +105,12 @@ def pNode : P (Node Nat) := do
     let w ← pWiring
     pure (.struct { fn := mix salt, scalars := w.1, arrays := w.2, cache := 0, version := 0,
                     remembered := none, flag := false })
+  else if t == "K" then
+    -- the skipping processor of the harness (c11K): reads A, and reads B only when A's value is > 0
+    let salt ← pNat
+    let w ← pWiring
+    pure (.struct { fn := mixK salt, reads := readsK, scalars := w.1, arrays := w.2, cache := 0, version := 0,
+                    remembered := none, flag := false })
   else failure
 
 def pOp : P (Op Nat) := do
@@ -105,11 +126,15 @@ def pOp : P (Op Nat) := do
 structure Case where
   nodes : Array (Node Nat)
   ops : List (Op Nat)
+  /-- the description contains a skipping processor (`K`): allowed only in the skip ops -/
+  hasK : Bool := false
 
 def pCase : P Case := do
+  let before ← get
   let ns ← pList pNode
+  let after ← get
   let ops ← pList pOp
-  pure { nodes := ns.toArray, ops := ops }
+  pure { nodes := ns.toArray, ops := ops, hasK := (before.take (before.length - after.length)).contains "K" }
 
 /-- one observation block of the implementation's answer -/
 structure Block where
@@ -332,13 +357,21 @@ def handle (op : String) (args : List String) : Option String :=
   match op with
   | "c11.hist" => do
     let (c, rest) ← pCase.run args
-    if rest.isEmpty then pure (runHist c) else none
+    if rest.isEmpty && !c.hasK then pure (runHist c) else none
+  | "c11.skip.hist" => do
+    let (c, rest) ← pCase.run args
+    if rest.isEmpty && c.hasK then pure (runHist c) else none
+  | "c11.holds.no_spurious_skipping_processor_witness" => do
+    -- the same predicate as c11.holds.no_spurious, on a fixed witness history with a skipping
+    -- processor: FALSE of the implementation (known finding C11-skipping-processor)
+    let ((c, bs), _) ← pCaseBlocks.run args
+    if c.hasK then pure (boolStr (holdsNoSpurious c bs)) else none
   | "c11.holds.fresh" => do
     let ((c, bs), _) ← pCaseBlocks.run args
     pure (boolStr (holdsFresh c bs))
   | "c11.holds.no_spurious" => do
     let ((c, bs), _) ← pCaseBlocks.run args
-    pure (boolStr (holdsNoSpurious c bs))
+    if c.hasK then none else pure (boolStr (holdsNoSpurious c bs))
   | "c11.holds.version" => do
     let ((c, bs), _) ← pCaseBlocks.run args
     pure (boolStr (holdsVersion c bs))
